@@ -510,7 +510,7 @@ BINDING = {
     "C02": ("Trace_C02", "Trace.cfg", [("Enc", lambda e: e.get("acc") and len(e["pairs"]) > 1, ["pairs", 1, "c"], _flipbit, "flip a bit of a codeword"),
                                        ("Enc", lambda e: e.get("acc") is False, ["acc"], lambda x: True, "claim acceptance of a singular tail")]),
     "C05": ("Trace_C05", "Trace.cfg", [("Var8", lambda e: len(e["out"]) > 1, ["out", 0, 1], lambda x: x + 1 if x < 127 else x - 1, "one outgoing message off by one"),
-                                       ("Quant8", lambda e: e["cls"] == "fin" and abs(e["fl"]) < 100, ["got"], lambda x: x + 1, "quantiser result off by one")]),
+                                       ("Quant8", lambda e: e["cls"] == "fin" and abs(e["fl"]) < 100 and e["cmp"] != "eq", ["got"], lambda x: x + 1, "quantiser result off by one")]),
     "C08": ("Trace_C08", "Trace_C08.cfg", [("Write", lambda e: len(e["lines"]) > 5 and len(e["lines"][4]) > 1, ["lines", 4], lambda ln: list(reversed(ln)), "column list not sorted"),
                                            ("Parse", lambda e: e.get("pv") == "ok" and e.get("pnc", 0) > 0, ["pnc"], lambda x: x + 1, "parser reports another size")]),
     "C09": ("Trace_C09", "Trace.cfg", [("Sys", lambda e: e.get("v") == "ok" and e["n"] > e["r"], ["res", 0], lambda r: [c for c in range(9) if c not in r][:max(1, len(r))], "a row of the result changed")]),
